@@ -991,8 +991,12 @@ func Check(propID, tier string) int {
 	ev := Evidence{PropertyID: propID, Tier: tier, Seed: int64(seed), Level: "exploration", Coverage: cov,
 		Assumptions: info.Assumptions, WallS: wall, Violations: unknown}
 	eb, _ := json.MarshalIndent(ev, "", " ")
-	os.MkdirAll(filepath.Join(VerifDir(), "evidence"), 0o755)
-	if err := os.WriteFile(filepath.Join(VerifDir(), "evidence", propID+".json"), eb, 0o644); err != nil {
+	evDir := filepath.Join(VerifDir(), "evidence")
+	if d := os.Getenv("VERIF_EVIDENCE_DIR"); d != "" {
+		evDir = d // development runs against deliberately broken trees must not touch the real evidence
+	}
+	os.MkdirAll(evDir, 0o755)
+	if err := os.WriteFile(filepath.Join(evDir, propID+".json"), eb, 0o644); err != nil {
 		fmt.Fprintln(os.Stderr, err)
 		return 2
 	}
